@@ -116,6 +116,12 @@ func init() {
 			nr, _ := strconv.Atoi(notes["crl_lints"])
 			no, _ := strconv.Atoi(notes["ocsp_lints"])
 			c.Extra["census"] = map[string]interface{}{"registered": map[string]int{"certificate": nc, "crl": nr, "ocsp": no}, "register_call_instructions": ssaCounts, "register_calls_in_source_text": srcN, "lint_packages_linked": ssaPkgs, "lint_directories": srcDirs}
+			if _, ok := notes["certificate_lints"]; !ok {
+				// the registry inspection ended early (an assertion failed or it was not decided): the counts it
+				// would have reported are not available, which is not by itself a census mismatch
+				c.Inconclusive = append(c.Inconclusive, "census: the registry inspection did not complete, registered-lint counts unavailable")
+				return
+			}
 			c.Side(nc == ssaCounts["certificate"] && nc > 0, fmt.Sprintf("registered certificate lints (%d) == RegisterLint/RegisterCertificateLint call instructions in the lint packages' init functions (%d)", nc, ssaCounts["certificate"]))
 			c.Side(nr == ssaCounts["crl"] && nr > 0, fmt.Sprintf("registered CRL lints (%d) == RegisterRevocationListLint call instructions (%d)", nr, ssaCounts["crl"]))
 			c.Side(no == ssaCounts["ocsp"] && no > 0, fmt.Sprintf("registered OCSP lints (%d) == RegisterOcspResponseLint call instructions (%d)", no, ssaCounts["ocsp"]))
